@@ -93,6 +93,9 @@ REDUCED = ('division-multiline', 'asi-restricted', 'regex-backtrack',
            'mismatched-close-paren', 'pending-hidden-comments',
            'comments-inside', 'string-continuation', 'unbalanced-at-eof')
 
+# texts parsed through the `calmjs.parse.es5` helper object
+HELPER_POOL = ('asi-eof', 'division-multiline', 'parser-error',
+               'pending-hidden-comments', 'comments-inside')
 # thorough: every triple over these (x flag), each in a fresh process
 EXACT3 = ('regex-backtrack', 'unbalanced-open-paren',
           'pending-hidden-comments')
@@ -160,10 +163,25 @@ def observe_exc(e):
     return ('exc', type(e).__name__, str(e))
 
 
+def helper_ops(names):
+    """the same texts through the package-level helper `calmjs.parse.es5`"""
+    d = dict(POOL)
+    return [(d[n], wc, 'es5') for n in names for wc in (False, True)]
+
+
+def as_op(item):
+    item = list(item)
+    return (item[0], bool(item[1])) + tuple(item[2:])
+
+
 def observe_call(L, op):
-    text, wc = op
+    text, wc = op[:2]
     try:
-        tree = L.parse(text, with_comments=wc)
+        if len(op) > 2:
+            from calmjs.parse import es5 as helper
+            tree = helper(text, with_comments=wc)
+        else:
+            tree = L.parse(text, with_comments=wc)
     except Exception as e:
         return observe_exc(e)
     return observe_tree(L, tree)
@@ -774,6 +792,16 @@ def run(tier, rep):
     calls += c
     rep.cov['global_state_classes_full_pool'] = ncls
     lap('histories-full-pool')
+    # the package-level helper (calmjs.parse.es5) is another way in: all
+    # pairs each in a fresh process, and every window of three calls
+    hops = helper_ops(HELPER_POOL)
+    d, nt, c, ncls = run_histories(
+        rep, 'helper-entry', hops, 3,
+        list(itertools.product(range(len(hops)), repeat=2)))
+    states += d
+    nontriv += nt
+    calls += c
+    lap('histories-helper-entry')
     if tier == 'thorough':
         red = ops_of(REDUCED)
         e3 = [red.index(o) for o in ops_of(EXACT3)]
@@ -886,7 +914,7 @@ def finish(rep, tier, states, nontriv, calls, phases):
 def replay(w):
     res = []
     if 'calls' in w:
-        ops = [(t, bool(wc)) for t, wc in w['calls']]
+        ops = [as_op(c) for c in w['calls']]
         base = baselines(sorted(set(ops)))
 
         def go():
@@ -900,7 +928,7 @@ def replay(w):
                     'detail': 'call %d %r: first-call result %s; now %s' % (
                         i + 1, op, brief(base[op]), brief(g))})
         return res
-    ops = [(t, bool(wc)) for t, wc in w['threads']]
+    ops = [as_op(c) for c in w['threads']]
     base = baselines(sorted(set(ops)))
     L = lib()
     if w.get('granularity') == 'line':
